@@ -45,6 +45,8 @@ func NewExecCtx(errs ZogIssues, fmter IssueFmtFunc) *ExecCtx {
 	c := ExecCtxPool.Get().(*ExecCtx)
 	c.Fmter = fmter
 	c.Errors = errs
+	// the context is pooled: values set with WithCtxValue by an earlier execution must not be visible to this one
+	clear(c.m)
 	return c
 }
 
